@@ -1,0 +1,37 @@
+package lalr
+
+import "testing"
+
+// Rules "I -> jbc" and "I -> gaE" (E is nullable) have the same nonterminal, length, action and
+// type, but parsers with fixWhitespace = true trim the range of the second one only.
+func TestMinimizeTrailingNullable(t *testing.T) {
+	const input = `S -> I; S -> SI; I -> jbc; I -> gaE; E -> f; E ->`
+	g, err := parseGrammar(input)
+	if err != nil {
+		t.Fatalf("parseGrammar(%v) failed with %v", input, err)
+	}
+	for i := range g.Rules {
+		g.Rules[i].Action = 0
+		g.Rules[i].Type = -1
+	}
+	tables, err := Compile(g, Options{MinimizeDFA: true})
+	if err != nil {
+		t.Fatalf("Compile(%v) failed with %v", input, err)
+	}
+	reduced := make(map[int]bool)
+	for _, action := range tables.Action {
+		if action >= 0 {
+			reduced[action] = true
+		}
+	}
+	for i := 1; i < len(tables.Lalr); i += 2 {
+		if action := tables.Lalr[i]; action >= 0 {
+			reduced[action] = true
+		}
+	}
+	for rule := 2; rule <= 3; rule++ {
+		if !reduced[rule] {
+			t.Errorf("rule %v of %q is never reduced after minimization", rule, input)
+		}
+	}
+}
